@@ -740,3 +740,477 @@ theorem chooseCols_runners_complete (hv : ValidOrder V order)
 
 end choose3
 end CTM.Election
+namespace CTM.Election
+open CTM.Numeric
+
+/-! ### aggregate_votes -/
+
+theorem mem_insertUniq (x a : Nat) : ∀ l : List Nat, a ∈ insertUniq x l ↔ a = x ∨ a ∈ l
+  | [] => by simp [insertUniq]
+  | y :: ys => by
+    unfold insertUniq
+    split
+    · simp
+    · split
+      · next h => subst h; simp
+      · simp [mem_insertUniq x a ys]; tauto
+
+theorem mem_uniqSorted (a : Nat) : ∀ ts : List Nat, a ∈ uniqSorted ts ↔ a ∈ ts
+  | [] => by simp [uniqSorted]
+  | t :: ts => by
+    have ih := mem_uniqSorted a ts
+    simp only [uniqSorted, List.foldr_cons] at ih ⊢
+    rw [mem_insertUniq, ih]; simp
+
+theorem sorted_insertUniq (x : Nat) : ∀ l : List Nat, l.Pairwise (· < ·) →
+    (insertUniq x l).Pairwise (· < ·)
+  | [], _ => by simp [insertUniq]
+  | y :: ys, h => by
+    unfold insertUniq
+    rw [List.pairwise_cons] at h
+    split
+    · next hlt =>
+      rw [List.pairwise_cons]
+      refine ⟨?_, List.pairwise_cons.2 h⟩
+      intro a ha
+      rcases List.mem_cons.1 ha with rfl | ha
+      · exact hlt
+      · exact lt_trans hlt (h.1 a ha)
+    · split
+      · exact List.pairwise_cons.2 h
+      · next h1 h2 =>
+        rw [List.pairwise_cons]
+        refine ⟨?_, sorted_insertUniq x ys h.2⟩
+        intro a ha
+        rcases (mem_insertUniq x a ys).1 ha with rfl | ha
+        · omega
+        · exact h.1 a ha
+
+/-- `unq_types` is strictly increasing (sorted, duplicate free) -/
+theorem sorted_uniqSorted : ∀ ts : List Nat, (uniqSorted ts).Pairwise (· < ·)
+  | [] => by simp [uniqSorted]
+  | t :: ts => by
+    have ih := sorted_uniqSorted ts
+    simp only [uniqSorted, List.foldr_cons] at ih ⊢
+    exact sorted_insertUniq t _ ih
+
+theorem nodup_uniqSorted (ts : List Nat) : (uniqSorted ts).Nodup :=
+  (sorted_uniqSorted ts).imp (fun h => Nat.ne_of_lt h)
+
+theorem length_insertUniq (x : Nat) : ∀ l : List Nat, l.Pairwise (· < ·) →
+    (insertUniq x l).length = if x ∈ l then l.length else l.length + 1
+  | [], _ => by simp [insertUniq]
+  | y :: ys, h => by
+    unfold insertUniq
+    rw [List.pairwise_cons] at h
+    split
+    · next hlt =>
+      have : x ∉ y :: ys := by
+        intro hm
+        rcases List.mem_cons.1 hm with rfl | hm
+        · omega
+        · have := h.1 x hm; omega
+      simp [this]
+    · split
+      · next heq => simp [heq]
+      · next h1 h2 =>
+        have ih := length_insertUniq x ys h.2
+        have hxy : x ≠ y := h2
+        simp only [List.length_cons, ih, List.mem_cons, hxy, false_or]
+        split <;> rfl
+
+theorem length_uniqSorted_le : ∀ ts : List Nat, (uniqSorted ts).length ≤ ts.length
+  | [] => by simp [uniqSorted]
+  | t :: ts => by
+    have ih := length_uniqSorted_le ts
+    have hs := sorted_uniqSorted ts
+    simp only [uniqSorted, List.foldr_cons] at ih hs ⊢
+    rw [length_insertUniq t _ hs]
+    split <;> simp <;> omega
+
+/-- no type repeats iff deduplication does not shorten the list -/
+theorem nodup_of_length_uniqSorted : ∀ ts : List Nat,
+    ¬ (uniqSorted ts).length < ts.length → ts.Nodup
+  | [], _ => List.nodup_nil
+  | t :: ts, h => by
+    have hle := length_uniqSorted_le ts
+    have hs := sorted_uniqSorted ts
+    have hm := mem_uniqSorted t ts
+    simp only [uniqSorted, List.foldr_cons] at h hle hs hm
+    rw [length_insertUniq t _ hs] at h
+    rw [List.nodup_cons]
+    by_cases hmem : t ∈ ts
+    · rw [if_pos (hm.2 hmem)] at h
+      simp only [List.length_cons] at h
+      omega
+    · refine ⟨hmem, nodup_of_length_uniqSorted ts ?_⟩
+      rw [if_neg (fun hc => hmem (hm.1 hc))] at h
+      simp only [List.length_cons, uniqSorted] at h ⊢
+      omega
+
+end CTM.Election
+
+namespace CTM.Election
+open CTM.Numeric
+
+theorem sum_ite_eq_of_nodup {α} [AddCommMonoid α] (k : Nat) (c : α) : ∀ U : List Nat,
+    U.Nodup → k ∈ U → (U.map (fun t => if k = t then c else 0)).sum = c
+  | [], _, hk => by simp at hk
+  | u :: U, hnd, hk => by
+    rw [List.nodup_cons] at hnd
+    simp only [List.map_cons, List.sum_cons]
+    by_cases h : k = u
+    · subst h
+      have : (U.map (fun t => if k = t then c else 0)).sum = 0 := by
+        apply List.sum_eq_zero
+        intro x hx
+        obtain ⟨t, ht, rfl⟩ := List.mem_map.1 hx
+        have : k ≠ t := fun e => hnd.1 (e ▸ ht)
+        simp [this]
+      simp [this]
+    · have hk' : k ∈ U := by
+        rcases List.mem_cons.1 hk with rfl | h'
+        · exact absurd rfl h
+        · exact h'
+      simp [h, sum_ite_eq_of_nodup k c U hnd.2 hk']
+
+/-- grouping a sum by a key: summing, over the distinct keys, the terms that
+    carry that key gives back the whole sum -/
+theorem sum_grouped {α} [AddCommMonoid α] (key : Nat → Nat) (f : Nat → α) (U : List Nat)
+    (hU : U.Nodup) : ∀ idxs : List Nat, (∀ i ∈ idxs, key i ∈ U) →
+    (U.map (fun t => ((idxs.filter (fun i => key i == t)).map f).sum)).sum = (idxs.map f).sum
+  | [], _ => by
+    apply List.sum_eq_zero
+    intro x hx
+    obtain ⟨t, _, rfl⟩ := List.mem_map.1 hx
+    simp
+  | i :: idxs, h => by
+    have ih := sum_grouped key f U hU idxs (fun j hj => h j (by simp [hj]))
+    have : (U.map (fun t => (((i :: idxs).filter (fun i => key i == t)).map f).sum)) =
+        U.map (fun t => (if key i = t then f i else 0) +
+          ((idxs.filter (fun i => key i == t)).map f).sum) := by
+      apply List.map_congr_left
+      intro t _
+      by_cases hk : key i = t <;> simp [List.filter_cons, hk]
+    rw [this, List.sum_map_add, ih, sum_ite_eq_of_nodup (key i) (f i) U hU (h i (by simp))]
+    simp
+
+theorem map_getD_range_rat (V : List Rat) :
+    (List.range V.length).map (fun i => V.getD i 0) = V := by
+  apply List.ext_getElem
+  · simp
+  · intro i h1 h2
+    simp at h1
+    simp [List.getD, h1]
+
+/-- `aggregate_votes` loses and invents no vote: the aggregated votes sum to
+    the leaf votes (one vote array entry per leaf) -/
+theorem aggregateVotes_sum (types votes : List Nat) (corr : List Rat)
+    (hlen : votes.length = types.length) :
+    (aggregateVotes types votes corr).1.sum = votes.sum := by
+  unfold aggregateVotes colsOf
+  simp only
+  rw [sum_grouped (fun i => types.getD i 0) (fun i => votes.getD i 0) _ (nodup_uniqSorted types)]
+  · rw [← hlen, map_getD_range]
+  · intro i hi
+    rw [mem_uniqSorted]
+    have hi : i < types.length := by simpa using hi
+    simp [List.getD, hi]
+
+theorem aggregateVotes_corr_sum (types votes : List Nat) (corr : List Rat)
+    (hlen : corr.length = types.length) :
+    (aggregateVotes types votes corr).2.1.sum = corr.sum := by
+  unfold aggregateVotes colsOf
+  simp only
+  rw [sum_grouped (fun i => types.getD i 0) (fun i => corr.getD i 0) _ (nodup_uniqSorted types)]
+  · rw [← hlen, map_getD_range_rat]
+  · intro i hi
+    rw [mem_uniqSorted]
+    have hi : i < types.length := by simpa using hi
+    simp [List.getD, hi]
+
+/-! ### the columns `choose_node` works on -/
+
+theorem columns_types_nodup (types votes : List Nat) (corr : List Rat) :
+    (columns types votes corr).2.2.Nodup := by
+  unfold columns
+  split
+  · exact nodup_uniqSorted types
+  · next h =>
+    apply nodup_of_length_uniqSorted
+    simpa [hasDupTypes] using h
+
+theorem columns_types_mem (types votes : List Nat) (corr : List Rat) (a : Nat) :
+    a ∈ (columns types votes corr).2.2 ↔ a ∈ types := by
+  unfold columns
+  split
+  · exact mem_uniqSorted a types
+  · rfl
+
+theorem columns_length (types votes : List Nat) (corr : List Rat)
+    (hlen : votes.length = types.length) :
+    (columns types votes corr).2.2.length = (columns types votes corr).1.length := by
+  unfold columns
+  split
+  · simp [aggregateVotes]
+  · exact hlen.symm
+
+theorem columns_sum (types votes : List Nat) (corr : List Rat)
+    (hlen : votes.length = types.length) :
+    (columns types votes corr).1.sum = votes.sum := by
+  unfold columns
+  split
+  · exact aggregateVotes_sum types votes corr hlen
+  · rfl
+
+end CTM.Election
+namespace CTM.Election
+open CTM.Numeric
+
+/-! ### the post-loops of run_type_assignment -/
+
+/-- correlation of the nearest level above level `k` where a choice was made -/
+def corrAbove (recs : List LevelRec) (k : Nat) : Option Rat :=
+  (recs.take k).reverse.findSome? (·.avgCorr)
+
+/-- correlation of the nearest level below level `k` where a choice was made -/
+def corrBelow (recs : List LevelRec) (k : Nat) : Option Rat :=
+  (recs.drop (k + 1)).findSome? (·.avgCorr)
+
+theorem corrAbove_cons_succ (r : LevelRec) (rs : List LevelRec) (k : Nat) :
+    corrAbove (r :: rs) (k + 1) = (corrAbove rs k).or r.avgCorr := by
+  simp [corrAbove, List.findSome?_append]
+
+theorem fillDown_length : ∀ (prev : Option Rat) (recs : List LevelRec),
+    (fillDown prev recs).length = recs.length
+  | _, [] => rfl
+  | prev, r :: rs => by simp [fillDown, fillDown_length]
+
+theorem fillUp_length : ∀ (recs : List LevelRec), (fillUp recs).length = recs.length
+  | [] => rfl
+  | r :: rs => by simp [fillUp, fillUp_length rs]
+
+theorem fillDown_getElem? : ∀ (recs : List LevelRec) (prev : Option Rat) (k : Nat),
+    (fillDown prev recs)[k]? = (recs[k]?).map (fun r =>
+      { r with avgCorr := (r.avgCorr.or (corrAbove recs k)).or prev })
+  | [], _, _ => by simp [fillDown]
+  | r :: rs, prev, 0 => by
+    simp only [fillDown, List.getElem?_cons_zero, Option.map_some, corrAbove, List.take_zero,
+      List.reverse_nil, List.findSome?_nil, Option.or_none]
+    cases r.avgCorr <;> simp
+  | r :: rs, prev, k + 1 => by
+    simp only [fillDown, List.getElem?_cons_succ]
+    rw [fillDown_getElem? rs _ k]
+    congr 1
+    funext r'
+    rw [corrAbove_cons_succ]
+    cases r'.avgCorr <;> cases corrAbove rs k <;> cases r.avgCorr <;> simp
+
+theorem fillUp_head (rs : List LevelRec) :
+    (match fillUp rs with | [] => none | r' :: _ => r'.avgCorr) = rs.findSome? (·.avgCorr) := by
+  cases rs with
+  | nil => simp [fillUp]
+  | cons r rs =>
+    simp only [fillUp, List.findSome?_cons]
+    cases h : r.avgCorr with
+    | some c => simp
+    | none =>
+      simp only
+      exact fillUp_head rs
+
+theorem fillUp_getElem? : ∀ (recs : List LevelRec) (k : Nat),
+    (fillUp recs)[k]? = (recs[k]?).map (fun r =>
+      { r with avgCorr := r.avgCorr.or ((recs.drop (k + 1)).findSome? (·.avgCorr)) })
+  | [], _ => by simp [fillUp]
+  | r :: rs, 0 => by
+    simp only [fillUp, List.getElem?_cons_zero, Option.map_some, List.drop_succ_cons,
+      List.drop_zero]
+    rw [← fillUp_head rs]
+    cases r.avgCorr <;> simp <;> rfl
+  | r :: rs, k + 1 => by
+    simp only [fillUp, List.getElem?_cons_succ, List.drop_succ_cons]
+    exact fillUp_getElem? rs k
+
+theorem fillDown_prob : ∀ (prev : Option Rat) (recs : List LevelRec),
+    (fillDown prev recs).map (·.prob) = recs.map (·.prob)
+  | _, [] => rfl
+  | prev, r :: rs => by simp [fillDown, fillDown_prob]
+
+theorem fillUp_prob : ∀ (recs : List LevelRec), (fillUp recs).map (·.prob) = recs.map (·.prob)
+  | [] => rfl
+  | r :: rs => by simp [fillUp, fillUp_prob rs]
+
+/-- the first level with a correlation is the same before and after the
+    top-down fill (started with nothing to copy) -/
+theorem findSome_fillDown_none : ∀ recs : List LevelRec,
+    (fillDown none recs).findSome? (·.avgCorr) = recs.findSome? (·.avgCorr)
+  | [] => rfl
+  | r :: rs => by
+    simp only [fillDown, List.findSome?_cons]
+    cases h : r.avgCorr with
+    | some c => simp
+    | none => simp only; exact findSome_fillDown_none rs
+
+theorem fillDown_append : ∀ (A B : List LevelRec) (prev : Option Rat),
+    fillDown prev (A ++ B) =
+      fillDown prev A ++ fillDown ((A.reverse.findSome? (·.avgCorr)).or prev) B
+  | [], B, prev => by simp [fillDown]
+  | a :: A, B, prev => by
+    simp only [List.cons_append, fillDown, List.reverse_cons, List.findSome?_append]
+    rw [fillDown_append A B]
+    cases h : a.avgCorr <;> cases h2 : (A.reverse.findSome? (·.avgCorr)) <;> simp [h]
+
+theorem runningProduct_length : ∀ (a : Rat) (ps : List Rat), (runningProduct a ps).length = ps.length
+  | _, [] => rfl
+  | a, p :: ps => by simp [runningProduct, runningProduct_length]
+
+/-- the k-th running product is the start value times the first k+1 factors -/
+theorem runningProduct_getElem? : ∀ (ps : List Rat) (a : Rat) (k : Nat), k < ps.length →
+    (runningProduct a ps)[k]? = some (a * (ps.take (k + 1)).prod)
+  | [], _, _, h => by simp at h
+  | p :: ps, a, 0, _ => by simp [runningProduct]
+  | p :: ps, a, k + 1, h => by
+    simp only [runningProduct, List.getElem?_cons_succ]
+    rw [runningProduct_getElem? ps (a * p) k (by simpa using h)]
+    simp [List.take_succ_cons, mul_assoc]
+
+end CTM.Election
+
+namespace CTM.Election
+open CTM.Numeric
+
+theorem finishCell_length (recs : List LevelRec) : (finishCell recs).length = recs.length := by
+  simp [finishCell, fillUp_length, fillDown_length, runningProduct_length]
+
+/-- the correlation after both fills, in terms of the records of the level loop -/
+theorem filled_corr (recs : List LevelRec) (k : Nat) (hk : k < recs.length) :
+    (fillUp (fillDown none recs))[k]? = some
+      { recs[k] with avgCorr := ((recs[k].avgCorr.or (corrAbove recs k)).or (corrBelow recs k)) } := by
+  rw [fillUp_getElem?, fillDown_getElem?, List.getElem?_eq_getElem hk]
+  simp only [Option.map_some, Option.or_none]
+  congr 2
+  cases hX : (recs[k].avgCorr.or (corrAbove recs k)) with
+  | some c => simp
+  | none =>
+    simp only [Option.none_or]
+    -- everything up to and including level k has no correlation
+    have hsplit : recs = recs.take (k + 1) ++ recs.drop (k + 1) := (List.take_append_drop _ _).symm
+    have hlen : (fillDown none (recs.take (k + 1))).length = k + 1 := by
+      rw [fillDown_length, List.length_take]; omega
+    have hnone : (recs.take (k + 1)).reverse.findSome? (·.avgCorr) = none := by
+      rw [List.take_succ_eq_append_getElem hk]
+      simp only [List.reverse_append, List.reverse_cons, List.reverse_nil, List.nil_append,
+        List.findSome?_append, List.cons_append, List.findSome?_cons, List.findSome?_nil]
+      have h1 : recs[k].avgCorr = none := by
+        cases h : recs[k].avgCorr with
+        | none => rfl
+        | some c => simp [h] at hX
+      have h2 : corrAbove recs k = none := by
+        cases h : corrAbove recs k with
+        | none => rfl
+        | some c => simp [h, h1] at hX
+      unfold corrAbove at h2
+      simp [h1, h2]
+    conv => lhs; rw [hsplit, fillDown_append, hnone]
+    rw [List.drop_left' hlen]
+    simp only [Option.or_none]
+    rw [findSome_fillDown_none]
+    rfl
+
+end CTM.Election
+
+namespace CTM.Election
+open CTM.Numeric
+
+/-- every field of a finished level in terms of the records of the level loop -/
+theorem finishCell_getElem? (recs : List LevelRec) (k : Nat) (hk : k < recs.length) :
+    (finishCell recs)[k]? = some
+      { assignment := recs[k].assignment, prob := recs[k].prob,
+        avgCorr := ((recs[k].avgCorr.or (corrAbove recs k)).or (corrBelow recs k)),
+        aggregate := ((recs.map (·.prob)).take (k + 1)).prod,
+        runners := some (recs[k].runnerAssignment, recs[k].runnerCorrelation,
+          recs[k].runnerProbability),
+        directlyAssigned := true } := by
+  have h1 := filled_corr recs k hk
+  have hp : (fillUp (fillDown none recs)).map (·.prob) = recs.map (·.prob) := by
+    rw [fillUp_prob, fillDown_prob]
+  have h2 : (runningProduct 1 ((fillUp (fillDown none recs)).map (·.prob)))[k]? =
+      some (((recs.map (·.prob)).take (k + 1)).prod) := by
+    rw [hp, runningProduct_getElem? _ _ _ (by simpa using hk), one_mul]
+  unfold finishCell
+  simp only [List.getElem?_map]
+  rw [List.getElem?_zip_eq_some (z := (_, _)) |>.2 ⟨h1, h2⟩]
+  rfl
+
+end CTM.Election
+namespace CTM.Election
+open CTM.Numeric
+
+/-! ### backfill_assignments -/
+
+/-- what `backfill_assignments` writes at an inferred level: the record of
+    the level below with the parent's name, no runner-up fields, not directly
+    assigned -/
+def inferredFrom (c : OutRec) (p : Nat) : OutRec :=
+  { c with assignment := p, runners := none, directlyAssigned := false }
+
+theorem inferStep_spec {parentOf : Nat → Nat → Option Nat} {cell cell' : Cell} {cl pl : Nat}
+    (h : inferStep parentOf cell cl pl = .ok cell') :
+    cell' = cell ∨ (cell.lookup pl = none ∧ ∃ c p, cell.lookup cl = some c ∧
+      parentOf cl c.assignment = some p ∧ cell' = cell ++ [(pl, inferredFrom c p)]) := by
+  unfold inferStep at h
+  split at h
+  · left; cases h; rfl
+  · next hpl =>
+    split at h
+    · left; cases h; rfl
+    · next c hc =>
+      split at h
+      · cases h
+      · next p hp =>
+        right
+        cases h
+        refine ⟨?_, c, p, hc, hp, rfl⟩
+        cases hl : List.lookup pl cell with
+        | none => rfl
+        | some v => simp [hl] at hpl
+
+theorem lookup_append_of_some {cell extra : Cell} {l : Nat} {r : OutRec}
+    (h : cell.lookup l = some r) : (cell ++ extra).lookup l = some r := by
+  rw [List.lookup_append, h]; rfl
+
+/-- invariant of the bottom-up loop of `backfill_assignments` -/
+theorem inferLoop_spec (parentOf : Nat → Nat → Option Nat) :
+    ∀ (ps : List (Nat × Nat)) (cell cell' : Cell),
+    ps.foldlM (fun c (p : Nat × Nat) => inferStep parentOf c p.1 p.2) cell = .ok cell' →
+    (∀ l r, cell.lookup l = some r → cell'.lookup l = some r) ∧
+    (∀ e ∈ cell', e ∈ cell ∨ ∃ cl c p, (cl, e.1) ∈ ps ∧ cell'.lookup cl = some c ∧
+      parentOf cl c.assignment = some p ∧ e.2 = inferredFrom c p)
+  | [], cell, cell', h => by
+    simp only [List.foldlM_nil, pure, Except.pure, Except.ok.injEq] at h
+    subst h
+    exact ⟨fun _ _ h => h, fun e he => Or.inl he⟩
+  | (cl, pl) :: ps, cell, cell', h => by
+    simp only [List.foldlM_cons, bind, Except.bind] at h
+    split at h
+    · cases h
+    · next cell1 h1 =>
+      obtain ⟨ih1, ih2⟩ := inferLoop_spec parentOf ps cell1 cell' h
+      rcases inferStep_spec h1 with rfl | ⟨hnone, c, p, hc, hp, rfl⟩
+      · refine ⟨ih1, ?_⟩
+        intro e he
+        rcases ih2 e he with h' | ⟨cl', c', p', hm, hl, hp', he'⟩
+        · exact Or.inl h'
+        · exact Or.inr ⟨cl', c', p', List.mem_cons_of_mem _ hm, hl, hp', he'⟩
+      · refine ⟨fun l r hl => ih1 l r (lookup_append_of_some hl), ?_⟩
+        intro e he
+        rcases ih2 e he with h' | ⟨cl', c', p', hm, hl, hp', he'⟩
+        · rcases List.mem_append.1 h' with h'' | h''
+          · exact Or.inl h''
+          · right
+            simp only [List.mem_singleton] at h''
+            subst h''
+            exact ⟨cl, c, p, by simp, ih1 _ _ (lookup_append_of_some hc), hp, rfl⟩
+        · exact Or.inr ⟨cl', c', p', List.mem_cons_of_mem _ hm, hl, hp', he'⟩
+
+end CTM.Election
